@@ -49,7 +49,7 @@ func hxs(s string) string { return hx([]byte(s)) }
 // ---------------------------------------------------------------- running a session in a child
 
 func runSession(s *Session) {
-	in, _ := json.Marshal(Session{API: s.API, Mode: s.Mode, Items: s.Items, TmpDir: s.TmpDir, Controllers: s.Controllers, GapUs: s.GapUs, Fifos: s.Fifos, LogLevel: s.LogLevel, Headers: s.Headers, ViaStream: s.ViaStream})
+	in, _ := json.Marshal(Session{API: s.API, Mode: s.Mode, Items: s.Items, TmpDir: s.TmpDir, Controllers: s.Controllers, GapUs: s.GapUs, Fifos: s.Fifos, LogLevel: s.LogLevel, Headers: s.Headers, ViaStream: s.ViaStream, CtlRuleID: s.CtlRuleID})
 	if s.TmpDir != "" {
 		defer os.RemoveAll(s.TmpDir)
 	}
@@ -85,6 +85,13 @@ loop:
 			}
 			if o.APIUsed != "" {
 				s.API = o.APIUsed
+				continue
+			}
+			if o.CtlURL != "" {
+				for i := range s.Items {
+					s.Items[i].Msg = bytes.ReplaceAll(s.Items[i].Msg, []byte("@CTL@"), []byte(o.CtlURL))
+					s.Items[i].Text = strings.ReplaceAll(s.Items[i].Text, "@CTL@", o.CtlURL)
+				}
 				continue
 			}
 			s.Obs = append(s.Obs, o)
@@ -699,6 +706,9 @@ func (s Session) dims() string {
 	}
 	if len(s.Fifos) > 0 {
 		d += " recording file is a named pipe without reader"
+	}
+	if s.CtlRuleID != "" {
+		d += fmt.Sprintf(" commands over a further control connection (rule id %q on stream api)", s.CtlRuleID)
 	}
 	return d
 }
